@@ -474,7 +474,7 @@ def _formula(max_depth):
 
 
 def plan(tier):
-    return [{"name": "main", "examples": 2000 if tier == "quick" else 50000}]
+    return [{"name": "main", "examples": 5000 if tier == "quick" else 50000}]
 
 
 def strategy(tier, campaign):
